@@ -182,6 +182,11 @@ func classify(prop string, o *outcome) (nontrivial bool, feature uint64, classes
 	add(anyPrefix(f, "apply-ambiguous"), "apply-ambiguous")
 	add(o.leftover != "", "leftover-goroutines")
 	add(r.P.LatencyMs > 0, "link-latency")
+	slowFSM := false
+	for _, d := range r.P.ApplyMs {
+		slowFSM = slowFSM || d > 0
+	}
+	add(slowFSM, "slow-fsm")
 	add(has("fresh-server-joins"), "fresh-server-joins")
 	add(anyPrefix(f, "log-read-error@"), "log-read-errors")
 	add(has("verify-while-a-snapshot-is-in-flight"), "verify-while-a-snapshot-is-in-flight")
